@@ -87,6 +87,8 @@ def run(chk):
                                 continue      # cl22's own build is compared with the source meaning in its stratum
                             sig = compilers.classify("C02", resigil(p, ds[a]), "text:O0", x, y, per[ds[a]][i].split()[1])
                             if sig.endswith("value-mismatch"):
+                                sig = compilers.classify("C02", resigil(p, ds[b]), "text:O0", x, y, per[ds[b]][i].split()[1])
+                            if sig.endswith("value-mismatch"):
                                 sig = "compile:C02:dialects-differ"
                             chk.fail("oracle", sig,
                                      {"program": p["text"], "dialects": [ds[a], ds[b]], "args": gen.hexv(p["args"][k])},
